@@ -236,9 +236,17 @@ def _copy_transitions(delta: MutableMapping[Tuple[State, Symbol], Set[State]], N
         delta[q, a] |= Q1
 
 
+def _fresh_state(Q: Set[State], id_generator: IdentifierGenerator) -> State:
+    # N.B. the generator knows nothing about the names used in the operands
+    q = State(id_generator.generate('q'))
+    while q in Q:
+        q = State(id_generator.generate('q'))
+    return q
+
+
 def nfa_repetition(N: NFA, id_generator: IdentifierGenerator = IdentifierGenerator()) -> NFA:
     Sigma = N.Sigma
-    q0 = State(id_generator.generate('q'))
+    q0 = _fresh_state(N.Q, id_generator)
     Q = N.Q | {q0}
     F = N.F | {q0}
     delta = defaultdict(lambda: set([]))
@@ -252,7 +260,7 @@ def nfa_repetition(N: NFA, id_generator: IdentifierGenerator = IdentifierGenerat
 def nfa_union(N1: NFA, N2: NFA, id_generator: IdentifierGenerator = IdentifierGenerator()) -> NFA:
     assert N1.Q.isdisjoint(N2.Q)
     Sigma = N1.Sigma | N2.Sigma
-    q0 = State(id_generator.generate('q'))
+    q0 = _fresh_state(N1.Q | N2.Q, id_generator)
     Q = N1.Q | N2.Q | {q0}
     F = N1.F | N2.F
     delta = defaultdict(lambda: set([]))
